@@ -85,7 +85,8 @@ class ServiceAccessPoint(object):
             return insertable
 
     def remove_socket(self, socket):
-        assert socket.addr == self.addr
+        # a concurrent link termination may already have unbound the socket
+        assert socket.addr in (self.addr, None)
         socket.close()
         with self.llc.lock:
             try:
